@@ -11,6 +11,7 @@
 import Scico.Proofs.Cache
 import Scico.Proofs.CacheOpts
 import Scico.Proofs.CacheJit
+import Scico.Proofs.CacheTrace
 
 namespace Scico.Props.C19
 open Scico.Cache
@@ -345,6 +346,38 @@ theorem C19_jit_value {F : Type} (J : F → F) (hJ : ∀ f, J f = f) (fns : AdjS
 example : (LinOpState.init .plain false).run [.gramOp, .adj, .jit, .call, .jit] = ⟨2, some (.derived, 2), some 2⟩ := by decide
 example : (LinOpState.init .classAdj true).run [.gram] = ⟨1, some (.classMethod, 1), some 1⟩ := by decide
 example : (LinOpState.init .plain false).run [.gram] = ⟨0, some (.derived, 0), some 0⟩ := by decide
+
+/-! ### parameters read at trace time (cached `jax.jit` / `lax.cond` traces) and parameter updates -/
+
+/-- A callable whose trace is cached per input signature: after ANY history of calls (any signatures) and attribute
+    assignments that never touch an attribute read at trace time, a call computes with the object's CURRENT attributes —
+    exactly what a fresh object built with them computes with.  (Which attributes are read at trace time is the table
+    `Scico.Generated.CacheAttrs`, regenerated from the sources on every run; for functionals and losses it is empty.) -/
+theorem C19_call_time_params {ν : Type} (traced : String → Bool) (attrs₀ : String → ν) (hist : List (TraceOp ν))
+    (hh : ∀ a v, TraceOp.set a v ∈ hist → traced a = false) (sig : Nat) :
+    ((TracedObj.run ⟨attrs₀, []⟩ hist).effective traced sig) = (TracedObj.run ⟨attrs₀, []⟩ hist).attrs := by
+  apply TracedObj.effective_of_fresh
+  apply TracedObj.fresh_run traced hist ⟨attrs₀, []⟩ (by intro e he; cases he)
+  intro op hop
+  cases op with
+  | set a v => exact hh a v hop
+  | call s => trivial
+
+/-- Conversely (negation witness, the mechanism of `hubernorm-nonsep-stale-delta`, `pgm-xstep-stale-loss-scale` and of a
+    per-object jitted projection): an attribute read at trace time and assigned after a first call keeps its OLD value for
+    every signature already seen, and its new value for signatures not seen before — history dependence. -/
+theorem C19_trace_time_stale {ν : Type} (traced : String → Bool) (attrs₀ : String → ν) (a : String) (v : ν)
+    (ha : traced a = true) (sig sig' : Nat) (hs : sig' ≠ sig) :
+    let o := TracedObj.run ⟨attrs₀, []⟩ [.call sig, .set a v]
+    o.effective traced sig a = attrs₀ a ∧ o.effective traced sig' a = v ∧ o.attrs a = v := by
+  have hne : (sig == sig') = false := by simpa using fun h => hs h.symm
+  simp [TracedObj.run, TracedObj.step, TracedObj.effective, ha, hne]
+
+-- non-vacuity: `radius` read at call time, `delta` at trace time; history: call, radius := 7, delta := 9, call again
+example : ((TracedObj.run ⟨fun _ => (1 : Nat), []⟩ [.call 0, .set "radius" 7, .set "delta" 9]).effective
+    (fun a => a == "delta") 0) "radius" = 7 := by decide
+example : ((TracedObj.run ⟨fun _ => (1 : Nat), []⟩ [.call 0, .set "radius" 7, .set "delta" 9]).effective
+    (fun a => a == "delta") 0) "delta" = 1 := by decide
 
 /-! ### random generators -/
 
